@@ -71,6 +71,7 @@ func TestC08(t *testing.T) {
 		spec := drawSched(rt)
 		eofWith := rapid.Bool().Draw(rt, "eofwith")
 		sigViaFile := rapid.Bool().Draw(rt, "sigviafile")
+		twice := rapid.IntRange(0, 3).Draw(rt, "writepatchtwice") == 0
 
 		dir, cleanup := RunDir()
 		defer cleanup()
@@ -81,7 +82,7 @@ func TestC08(t *testing.T) {
 		s := &Sched{Spec: spec, MaxSteps: 200000}
 		var dr *DiffResult
 		s.Run(t, func() {
-			dr = Diff(oldDir, newDir, comp, DiffSeams{SourceSlice: srcSlice, Yield: s.Yield, EOFWith: eofWith, SigViaFile: sigViaFile})
+			dr = Diff(oldDir, newDir, comp, DiffSeams{SourceSlice: srcSlice, Yield: s.Yield, EOFWith: eofWith, SigViaFile: sigViaFile, Twice: twice})
 		})
 		if s.BudgetExceeded {
 			return
